@@ -6,7 +6,7 @@ HARNESS_TIMEOUT = {'quick': 900, 'thorough': 7200}
 
 # files whose failure means the executable model itself does not build
 MODEL_FILES = ['theories/Base.v', 'theories/Lines.v', 'theories/Lifecycle.v', 'theories/Regex.v', 'theories/Claims.v',
-               'theories/Obs.v', 'theories/CaseClaims.v', 'theories/RunC14.v', 'theories/RunHist.v', 'theories/RunCodec.v', 'theories/RunEv.v', 'theories/RunCose.v', 'theories/RunEmb.v', 'theories/Embedded.v', 'theories/RunReg.v', 'theories/Registry.v', 'theories/Json.v', 'theories/JsonCodec.v', 'theories/RunJson.v', 'theories/Purity.v', 'theories/Effects.v', 'theories/RunPur.v', 'gen/GenEffects.v', 'theories/Evidence.v', 'theories/Gates.v', 'theories/Cose.v', 'theories/Cbor.v', 'theories/Utf8.v', 'theories/Tags.v', 'theories/Wire.v', 'theories/Codec.v', 'theories/Run.v', 'gen/GenTags.v', 'spec/SpecTags.v', 'spec/SpecTables.v', 'gen/GenConsts.v']
+               'theories/Obs.v', 'theories/CaseClaims.v', 'theories/RunC14.v', 'theories/RunHist.v', 'theories/RunCodec.v', 'theories/RunEv.v', 'theories/RunCose.v', 'theories/RunEmb.v', 'theories/Embedded.v', 'theories/RunReg.v', 'theories/Registry.v', 'theories/Json.v', 'theories/JsonCodec.v', 'theories/RunJson.v', 'theories/Purity.v', 'theories/Effects.v', 'theories/RunPur.v', 'theories/Conc.v', 'theories/RunConc.v', 'gen/GenEffects.v', 'theories/Evidence.v', 'theories/Gates.v', 'theories/Cose.v', 'theories/Cbor.v', 'theories/Utf8.v', 'theories/Tags.v', 'theories/Wire.v', 'theories/Codec.v', 'theories/Run.v', 'gen/GenTags.v', 'spec/SpecTags.v', 'spec/SpecTables.v', 'gen/GenConsts.v']
 
 TRUSTED_BASE = [
     'Coq 8.16.1 kernel (coqc; vm_compute used in tie obligations; no native_compute)',
@@ -82,6 +82,18 @@ def _claims_texts_utf8(tok):
             if len(f) == 5:
                 ok = ok and _utf8_ok(f[0]) and _utf8_ok(f[2]) and _utf8_ok(f[4])
     return ok
+
+
+def _c17_oracle(inp, obs, extra):
+    """C17 on the implementation: the concurrent run must equal the sequential run, nothing may panic"""
+    if not inp.startswith('CONC'):
+        return None
+    o = obs.split(' ')
+    if o[-1] != 'conc=same':
+        return 'results of the concurrent run differ from the sequential run of the same programs (%s)' % o[-1]
+    if 'panic' in o:
+        return 'a call panicked in the concurrent run'
+    return None
 
 
 def _c18_oracle(inp, obs, extra):
@@ -292,6 +304,14 @@ PROPS = {
         cone=WIRE_CONE, level='proof', oracle=_c09_oracle, signature=_c09_signature, kernel_maxlen=9000,
         nontrivial=lambda i, o: not o.startswith('ok'), classify=lambda i, o: 'P%s valid=%s' % (i.split(' ')[1], o.split(' ')[0][:2]),
         rule='valid claims-sets of both profiles (generator of C03) and directly constructed invalid ones (1..2 deviations from the C01 alternatives, incl. invalid UTF-8 texts): EncodeClaimsToCBOR, DecodeClaimsFromCBOR of the result, all getters before and after, re-encode; the property is evaluated on the implementation (oracle) and every observation is compared with the model; non-trivial = the input claims-set is not valid',
+    ),
+    'C17': dict(
+        cone=WIRE_CONE + ['theories/EvidenceProofs.v', 'theories/PurityProofs.v', 'theories/ConcProofs.v', 'ties/TieEffects.v'], level='proof', oracle=_c17_oracle,
+        race=True, kernel_maxlen=9000,
+        nontrivial=lambda i, o: True,
+        classify=lambda i, o: 'P%s %s goroutines=%s' % (i.split(' ')[2], o.split(' ')[0], '16-31' if i.count('|') < 31 else ('32-47' if i.count('|') < 47 else '48-64')),
+        rule='harness built with -race and run with GORACE=halt_on_error=1: per case one claims-set (both profiles, a fifth invalid in one claim, profile-1 sets with an empty component list), shared objects = that claims-set, the Evidence that signed it, the Evidence decoded from the token, its CBOR and JSON encodings; 16..64 goroutines released together, each first creating, signing (one of five real keys) and decoding objects of its own and then running 3..10 calls drawn from: every read-side call of C18 on the shared objects, the same calls on its own objects, NewClaims + setter + getter, DecodeClaimsFromJSON / DecodeClaimsFromCBOR of the shared encodings; the same programs are first run sequentially; observed: any race-detector report (process exit 66, attributed to the case being executed), concurrent results == sequential results, every result compared with the model run under the sequential schedule',
+        assumptions=['call-granularity interleaving: each API call is one atomic step of the model; races inside a call are covered by the effect tables and the Go race detector, not by the theorem'],
     ),
     'C18': dict(
         cone=WIRE_CONE + ['theories/EvidenceProofs.v', 'theories/PurityProofs.v', 'ties/TieEffects.v'], level='proof', oracle=_c18_oracle, kernel_maxlen=4000,
